@@ -11,7 +11,7 @@ class InstanceResult(dict):
     pass
 
 def run_paths(prog, body, deadline, profile='dev', on_ok=None, on_violation=None, on_panic=None, max_samples=3,
-              step_budget=2_000_000, setup=None, panic_is_violation=True, prefix=None):
+              step_budget=2_000_000, setup=None, panic_is_violation=True, prefix=None, on_budget=None):
     """explore `body`; returns a summary dict.
     on_ok(leaf, I) -> optional ('mismatch', info) | ('validated', n) | None      (translation validation hook)
     on_violation(leaf, I) -> violation record (dict)                                (harness assertion failed)
@@ -35,6 +35,10 @@ def run_paths(prog, body, deadline, profile='dev', on_ok=None, on_violation=None
             rec = on_panic(l, I) if on_panic else None
             if rec: out['violations'].append(rec)
         elif st in ('unsupported', 'budget', 'inconclusive'):
+            if st == 'budget' and on_budget is not None:
+                rec = on_budget(l, I)
+                if rec:
+                    out['violations'].append(rec); return
             if len(out['issues']) < 20:
                 out['issues'].append({'status': st, 'msg': l.msg, 'where': l.where, 'inputs': l.inputs})
             out['classes']['issue:' + st] += 1
